@@ -98,6 +98,23 @@ static void run_work(Ctx& ctx, const Work& w) {
   }
 }
 
+// sampled layer above the exhaustive bound: the statement holds for every N = 2^k, and the coefficient kernels take any nn - ring
+// dimensions up to 2^22 (2^24 thorough) with a list of exponents chosen to expose index arithmetic of limited width (inverses, products
+// j*p, masks): small odd / even p, the neighbours of N/2, N, 3N/2, 2N, exponents with long carry patterns, far representatives
+static void run_sampled(Ctx& ctx, uint64_t N, int k) {
+  std::vector<int64_t> v = probe_for(k, N), e, tmp;
+  std::vector<int64_t> vs = v; for (uint64_t j = 1; j < N; j += 3) vs[j] = 0;
+  GBuf in(N * 8, 8), out(N * 8, 24);
+  const int64_t n = (int64_t)N;
+  std::vector<int64_t> ps = {1, 3, 5, 7, 25, -3, -1, n - 1, n + 1, 2 * n - 1, 2 * n + 1, n / 2 + 1, n / 2 - 1, 3 * n / 2 + 1, 1234567, 0x155555, 0x0AAAAB, INT64_C(0x5555555555555555), INT64_C(0x2AAAAAAAAAAAAAAB),
+                             INT64_C(0x7FFFFFFFFFFFFFFF), -INT64_C(0x7FFFFFFFFFFFFFFF), INT64_C(0x100000001), -(INT64_C(1) << 40) + 1};
+  if (!is_aut(k)) for (int64_t q : {(int64_t)0, (int64_t)2, n, n / 2, 2 * n, 2 * n - 2, (int64_t)1234568, INT64_C(0x5555555555555554), -(INT64_C(1) << 40)}) ps.push_back(q);
+  for (int64_t p : ps) {
+    run_one(ctx, k, N, p, v, in, out, e, tmp, "|sampled");
+    if ((p & 7) == 3 || p == n + 1) run_one(ctx, k, N, p, vs, in, out, e, tmp, "|sampled|sparse");
+  }
+}
+
 // complete data-independence scope: N <= 8, all p, all vectors over {-1,0,1,2}
 static void run_scope(Ctx& ctx, uint64_t N, int k) {
   std::vector<int64_t> v(N), e, tmp;
@@ -174,6 +191,10 @@ int main(int argc, char** argv) {
   }
   ctx.parallel(work.size(), [&](uint64_t i) { run_work(ctx, work[i]); }, "kernels, all residues");
   struct S { uint64_t N; int k; };
+  std::vector<S> sm;
+  const unsigned samplog = th ? 24 : 22;
+  for (unsigned lg = samplog; lg > maxlog; --lg) for (int k = 0; k < NKERN; ++k) sm.push_back({1ull << lg, k});
+  ctx.parallel(sm.size(), [&](uint64_t i) { run_sampled(ctx, sm[i].N, sm[i].k); }, "kernels above the exhaustive bound, sampled exponents");
   std::vector<S> sc;
   for (uint64_t N : {1, 2, 4, 8}) for (int k = 0; k < NKERN; ++k) { if (is_aut(k) && N < 2) continue; sc.push_back({N, k}); }
   ctx.parallel(sc.size(), [&](uint64_t i) { run_scope(ctx, sc[sc.size() - 1 - i].N, sc[sc.size() - 1 - i].k); }, "data-independence scope");
@@ -184,9 +205,10 @@ int main(int argc, char** argv) {
   ctx.assumptions = {"p in (-2^63, 2^63) (INT64_MIN excluded by the property)", "the kernels contain only index arithmetic (no branch or address depends on coefficient values), so one injective probe per (N,p) determines the signed permutation; checked by the complete scope N<=8",
                      "rnx variants are exercised on integers exactly representable as doubles (the maps only move and negate)"};
   Json ex = Json::obj();
-  ex.set("max_log2_N", (int)maxlog).set("kernels", (int)NKERN);
+  ex.set("max_log2_N_exhaustive", (int)maxlog).set("max_log2_N_sampled", (int)samplog).set("kernels", (int)NKERN);
   return ctx.finish("exploration",
                     "every N = 2^0..2^maxlog x every residue p mod 2N (odd residues for automorphisms) x 11 kernels, plus 6 far representatives per residue class (all classes for N<=64, 6 classes otherwise), "
+                    "N = 2^(maxlog+1)..2^22 (2^24 thorough) x 23-32 sampled exponents x 11 kernels, "
                     "complete scope N<=8 x all p x all vectors over {-1,0,1,2}, vector/big wrappers x all p x shapes; non-trivial unless N=1 and p even; distinct = distinct case ids",
                     true, ex);
 }
